@@ -115,6 +115,14 @@ def replace_typevars(ty: t.Any,
     args = t.get_args(ty)
 
     if not len(args):
+        # a subscripted generic dataclass (`G[T]`) is a class of its own, which `typing` can't look into:
+        # substitute in the parameters it was subscripted with
+        bound = ty.__dict__.get('__pane_boundvars__') if isinstance(ty, type) else None
+        if bound:
+            params = tuple(bound.values())
+            new_params = tuple(replace_typevars(param, replacements) for param in params)
+            if new_params != params:
+                return ty.__dict__['__origin__'][new_params]
         return ty
 
     args = (replace_typevars(ty, replacements) for ty in args)
